@@ -980,6 +980,52 @@ def stmt_model(ctx, st, d1, d2, label):
         st.stmt_mismatch.append((label, b, o))
 
 
+def prog_units(d):
+    """the units of a deparsed program as `deparse` writes them: every unit ends with an empty line, except END blocks"""
+    parts = d.split("\n\n")
+    units = [x + "\n\n" for x in parts[:-1]]
+    if parts[-1]:
+        units += re.split(r"(?<=\n\}\n)(?=END \{\n)", parts[-1])
+    return units
+
+
+def prog_model(ctx, st, d1, d2, label):
+    """top-level correspondence: the whole of D1 is read by the Lean model's parseProg (= parse.c parse_progunit: @global line,
+    function headers, BEGIN / END, pattern-action units) and every unit is printed again by printItem (= parse.c deparse /
+    deparse_func); the units must be D2's units (as a multiset: functions are deparsed in hash-table order) byte for byte"""
+    if d1 is None or "\x01" in d1 or "\x02" in d1 or "\x03" in d1 or "\r" in d1:
+        return
+    if d2 is None:
+        d2 = d1
+    mg = re.search(r"^@global __g(\d+)", d1, re.M)
+    if mg is None and re.search(r"^@global ", d1, re.M):
+        # HAWK_IMPLICIT off (a `#!C17-OPTS` program): the globals keep their names - outside the model (CLI default traits)
+        st.prog_unsupported += 1
+        return
+    data = ("P %d %s\n" % (int(mg.group(1)) if mg else 0, d1.replace("\n", "\x01").replace("\t", "\x02"))).encode("utf-8", errors="surrogateescape")
+    rc, out, err = C.sh([_DRV["exe"], "deparse"], input_=data, timeout=60 + len(data) // 2000)
+    if rc != 0:
+        raise RuntimeError("lean driver deparse (program mode) rc=%s: %s" % (rc, err.decode(errors="replace")[-2000:]))
+    o = out.decode(errors="replace").rstrip("\n")
+    if o.startswith("ok "):
+        stab, _, txt = o[3:].partition("\t")
+        got = sorted(x.replace("\x01", "\n").replace("\x02", "\t") for x in txt.split("\x03") if x)
+        st.prog_compared += 1
+        st.prog_units += len(got)
+        want = prog_units(d2)
+        if got != sorted(want) or stab != "stable":
+            diff = [u for u in got if u not in want][:2] + ["<missing> " + u for u in want if u not in got][:2]
+            st.stmt_mismatch.append((label + " (whole program)", d1, "%s\n%s" % (stab, "\n".join(diff))))
+        return
+    nostr = _STR_RE.sub('""', d1)
+    if (o.startswith("err unsupported") or o.startswith("err lex-") or "getline" in nostr or "getbline" in nostr or "'" in nostr
+            or "/" in nostr.replace(" / ", " ").replace(" /= ", " ") or re.search(r"^function [^\n]*(&|\.\.\.)", nostr, re.M) or "@pragma" in nostr):
+        st.prog_unsupported += 1
+        return
+    st.prog_compared += 1
+    st.stmt_mismatch.append((label + " (whole program)", d1, o))
+
+
 def d1_begin_lines(d1):
     """statement lines of the first BEGIN block that consists of simple statements only"""
     ls = d1.split("\n")
@@ -1019,6 +1065,9 @@ class Stats:
         self.stmt_lines = 0
         self.stmt_mismatch = []
         self.stmt_distinct = set()
+        self.prog_compared = 0
+        self.prog_units = 0
+        self.prog_unsupported = 0
 
 
 def merge_stats(a, b):
@@ -1035,6 +1084,9 @@ def merge_stats(a, b):
     a.stmt_lines += b.stmt_lines
     a.stmt_mismatch += b.stmt_mismatch
     a.stmt_distinct |= b.stmt_distinct
+    a.prog_compared += b.prog_compared
+    a.prog_units += b.prog_units
+    a.prog_unsupported += b.prog_unsupported
 
 
 def run_jobs(ctx, st, jobs, workers=8):
@@ -1139,6 +1191,7 @@ def check_batch(ctx, hawk, st, items, decls, label, model=True):
     for it in items:
         st.nontrivial.add(it.label)
     stmt_model(ctx, st, v.d1, v.d2, label)
+    prog_model(ctx, st, v.d1, v.d2, label)
     if model:
         lines = d1_begin_lines(v.d1)
         if lines is None:
@@ -1176,6 +1229,7 @@ def check_program(ctx, hawk, st, prog, label):
         if not v.d2_eq_d1:
             st.d2_ne_d1 += 1
         stmt_model(ctx, st, v.d1, v.d2, label)
+        prog_model(ctx, st, v.d1, v.d2, label)
         return True
     if v.kind in ("src-rejected", "sanitizer-src"):
         if v.kind == "src-rejected":
@@ -1303,8 +1357,8 @@ def run(ctx):
             txt += "#--- [%s]\n%s#---model---\n%s\n" % (lab2, blk2, got2)
         ctx.problem("corr", "Lean model of print_stmt / the statement parser disagrees with `hawk -d` on %d blocks, first [%s]: model answers %r" %
                     (len(st.stmt_mismatch), lab[:80], got[:160]), txt, found_input=False)
-    ctx.log("statement model: blocks compared=%d (lines %d, distinct %d) outside-the-model=%d mismatches=%d" %
-            (st.stmt_compared, st.stmt_lines, len(st.stmt_distinct), st.stmt_unsupported, len(st.stmt_mismatch)))
+    ctx.log("statement model: blocks compared=%d (lines %d, distinct %d) outside-the-model=%d; whole programs compared=%d (units %d) outside-the-model=%d; mismatches=%d" %
+            (st.stmt_compared, st.stmt_lines, len(st.stmt_distinct), st.stmt_unsupported, st.prog_compared, st.prog_units, st.prog_unsupported, len(st.stmt_mismatch)))
     ctx.log("programs=%d expr-items=%d rejected-by-generator=%d D2!=D1=%d model-compared=%d model-unsupported=%d problem-kinds=%s" %
             (st.programs, st.exprs, st.src_rejected, st.d2_ne_d1, st.model_compared, st.model_unsupported, st.kinds))
     samples = [HAND_PROGRAMS[0].strip()[:160], "r = (a ? b : c) %% 2", "r = a (-1)", "print a, (b > c) > \"o7.txt\""]
@@ -1320,8 +1374,9 @@ def run(ctx):
                                    model_compared=st.model_compared, model_unsupported=st.model_unsupported, node_kinds_seen_in_deparse=st.stmt_kinds,
                                    problem_kinds=st.kinds),
                     trusted=["token-level model HawkModel/Deparse.lean of print_expr and of the expression ladder (hand-written, driven by the generated tables); lexing of identifiers, numbers and strings is in the driver only",
-                             "statement level: HawkModel/DeparseStmt.lean (printS = print_stmt, parseStmt = parse_statement ... parse_print; keyword and redirection spellings generated from kwtab[] / print_outop_str[]) is tied to the code byte for byte on every block of every deparsed program; theorems cover all statement kinds but print with a redirection (model + correspondence only)",
-                             "getline forms, the top level (deparse, deparse_func: globals, function headers, pattern-action chains), regex/string/char literal escaping: correspondence only",
+                             "statement level: HawkModel/DeparseStmt.lean (printS = print_stmt, parseStmt = parse_statement ... parse_print; keyword and redirection spellings generated from kwtab[] / print_outop_str[]) is tied to the code byte for byte on every block of every deparsed program; theorems cover all statement kinds of the model including print / printf with every redirection form",
+                             "top level: printItem / parseProg (= deparse, deparse_func / parse_progunit: @global line, function headers with __pN, BEGIN / END, pattern-action units) tied unit by unit on every whole deparsed program; by-reference / variadic parameters, @pragma, non-implicit global names are outside the model",
+                             "getline forms, regex/string/char literal escaping: correspondence only",
                              "floating-point rendering (%#.36g) and reading are trusted to round-trip; folding arithmetic is C08's"],
                     assumptions=["CLI default traits (modern mode: BLANKCONCAT, IMPLICIT, RIO, RWPIPE, TOLERANT ...)", "expression nesting of the deparsed text below the CLI's parse depth limit (50) — see finding deparse-nesting-depth"])
 
